@@ -82,6 +82,7 @@ func execPlan(t *testing.T, ck *Check, plan *sim.Plan) (*sim.Outcome, []sim.Viol
 	runStart.Store(time.Now().UnixNano())
 	defer runStart.Store(0)
 	var out *sim.Outcome
+	var redisStore *simredis.Server
 	if ck.Custom != nil {
 		out = ck.Custom(t, plan)
 	} else {
@@ -93,10 +94,27 @@ func execPlan(t *testing.T, ck *Check, plan *sim.Plan) (*sim.Outcome, []sim.Viol
 			// swarm: this run's broker keeps sessions, subscriptions, queues and unacknowledged ids in (simulated) redis
 			st := simredis.NewServer(plan.Seed)
 			fmt.Sscan(plan.Params["redis_lat_us"], &st.ReplyLatMaxUs)
+			// storage faults: the k-th command is answered with an error reply / breaks the connection
+			for _, f := range strings.Fields(plan.Params["redis_err_at"]) {
+				if n, err := strconv.Atoi(f); err == nil {
+					st.ErrAt[n] = true
+				}
+			}
+			for _, f := range strings.Fields(plan.Params["redis_drop_at"]) {
+				if n, err := strconv.Atoi(f); err == nil {
+					st.DropAt[n] = true
+				}
+			}
+			redisStore = st
 			simredis.Install(st)
 			defer simredis.Install(nil)
 		}
 		out = sim.Run(t, plan, setup)
+		if redisStore != nil && out.Faults != nil {
+			for k, v := range redisStore.Fired {
+				out.Faults[k] += v
+			}
+		}
 	}
 	inconcl := ""
 	if out.LoopErr == simrt.ErrStepBudget {
